@@ -4,6 +4,7 @@ tier=$1; shift
 cd /verif
 # /repo must stay untouched while a sweep runs: same lock as tools/seeded.py and tools/mutsweep.py
 exec 9>/var/tmp/repo.lock; flock 9
+export VF_LOCK_HELD=1
 # a sweep never shares scratch space, evidence or replays with interactive runs
 export VF_WORK=${VF_WORK:-/var/tmp/vf-work-sweep}
 export VF_EVIDENCE_DIR=$VF_WORK/evidence
